@@ -62,6 +62,28 @@ for eq in (False, True):
                         STD[(eq, frozen, uh, ex)] = ('error', type(e).__name__)
 
 
+# classes whose body defines __eq__ (and no __hash__): python puts __hash__ = None into the class dict, which is NOT an explicit hash
+EQCUBE = {}
+_EQ = "    def __eq__(self, other):\n        return isinstance(other, type(self)) and self.x == other.x\n"
+for eq in (False, True):
+    for frozen in (False, True):
+        for uh in (False, True):
+            tag = f"e{int(eq)}{int(frozen)}{int(uh)}"
+            ns = {'PaneBase': PaneBase, 'field': field}
+            try:
+                exec(_SRC.format(tag=tag, eq=eq, order=False, frozen=frozen, uh=uh, explicit=_EQ), ns)
+                a = ns['C_' + tag]
+            except Exception as e:
+                a = ('error', type(e).__name__)
+            ns2 = {'dataclasses': dataclasses}
+            try:
+                exec(_STD.format(tag=tag, eq=eq, frozen=frozen, uh=uh, explicit=_EQ), ns2)
+                b = ns2['S_' + tag]
+            except Exception as e:
+                b = ('error', type(e).__name__)
+            EQCUBE[(eq, frozen, uh)] = (a, b)
+
+
 def hash_category(cls):
     """'error' | 'none' (unhashable) | 'explicit' | 'generated' | 'inherited'"""
     if isinstance(cls, tuple):
@@ -104,6 +126,25 @@ def body_hash_table(sel: int) -> int:
     if a != b:
         return 4
     return -1 if a == 'error' else 0
+
+
+@obligation(pre="0 <= sel <= 7", witnesses=(0,), timeout=120)
+def body_hash_table_body_eq(sel: int, x1: int) -> int:
+    """hash rule table when the class body defines __eq__ but no __hash__ (the implicit __hash__ = None is not an explicit hash): same category as the stdlib"""
+    n = 0
+    for key in EQCUBE:
+        if n == sel:
+            (a, b) = EQCUBE[key]
+            ca, cb = hash_category(a), hash_category(b)
+            if (ca == 'error') != (cb == 'error'):
+                return 10
+            if ca != cb:
+                return 4
+            if ca == 'generated' and -2 <= x1 <= 2:
+                if hash(a(x1)) != hash(a(x1)):
+                    return 5
+        n += 1
+    return 0
 
 
 def cmp_tuple(o):
